@@ -27,8 +27,30 @@ let parse_bop (o : string) : bop =
   | 'f' -> BFree (nat_of_int t) | 'm' -> BFreeN (nat_of_int t, nat_of_int k)
   | _ -> failwith ("bad bop " ^ o)
 
+let parse_cop (o : string) : cop =
+  let arg () = nat_of_int (int_of_string (String.sub o 1 (String.length o - 1))) in
+  match o.[0] with
+  | 'O' -> CPop (arg ()) | 'T' -> CTry (arg ()) | 'N' -> CNewH | 'H' -> CPushH (arg ()) | 'U' -> CPushU (arg ())
+  | 'D' -> CDie | 'V' -> CMove | _ -> failwith ("bad cop " ^ o)
+let show_cres (o : string) (r : cres) : string =
+  match r with
+  | CGot x -> String.make 1 o.[0] ^ string_of_int (int_of_nat x) | CNone -> "T-" | CBlocked -> "O!"
+  | CPushed d -> if d then "P1" else "P0" | CNew x -> "N" ^ string_of_int (int_of_nat x)
+  | CDied -> "D" | CMoved -> "V" | CSkip -> "_"
+
 let () = iter_lines (fun line ->
   match words line with
+  | [id; "M"; modes; cap; prog] ->
+    let ms = List.init (String.length modes) (fun i -> modes.[i] = '1') in
+    let ops = List.filter (fun x -> x <> "") (String.split_on_char ',' prog) in
+    let s = crun (cinit ms (nat_of_int (int_of_string cap))) (List.map parse_cop ops) in
+    let sorted l = List.sort compare (List.map int_of_nat l) in
+    Printf.printf "%s %s cached=%s destroyed=%s rec=%s fresh=%d leaked=[%s] held=%s\n" id
+      (String.concat "," (List.map2 show_cres ops s.clog))
+      (String.concat "/" (List.map (fun p -> lst p.cq) s.cpools)) (lst s.cdestroyed)
+      (String.concat "/" (List.map (fun p -> lst p.crec) s.cpools)) (int_of_nat s.cfresh)
+      (String.concat ";" (List.map string_of_int (sorted s.cleaked)))
+      (lst (List.map (fun h -> h.hobj) s.hands))
   | [id; "B"; batch; nt; prog] ->
     let ops = List.map parse_bop (List.filter (fun x -> x <> "") (String.split_on_char ',' prog)) in
     let s = brun (binit (nat_of_int (int_of_string batch)) (nat_of_int (int_of_string nt))) ops in
